@@ -10,6 +10,7 @@ import (
 	"net/http"
 	"regexp"
 	"strings"
+	"sync"
 
 	"github.com/rs/zerolog/log"
 )
@@ -192,13 +193,61 @@ func escapeURLPart(part, parameterRegex string) string {
 	return regexp.QuoteMeta(part)
 }
 
+// The request that was registered with the proxy last: what the configuration that is
+// being served needs to stay registered.
+var (
+	lastManagedMutex sync.Mutex
+	lastManaged      *HAProxyEndpointsRequest
+)
+
 func ManageHAProxyEndpoints(haproxyEndpoints *HAProxyEndpointsRequest) error {
 	err := updateHAProxyEndpoints(haproxyEndpoints)
 	if err != nil {
 		return err
 	}
+	lastManagedMutex.Lock()
+	lastManaged = haproxyEndpoints
+	lastManagedMutex.Unlock()
 	log.Debug().Msg("✍️  Successfully updated endpoints")
 	return nil
+}
+
+// EndpointsToUnmanage returns the previously registered endpoints whose expression the new
+// request does not register any more. Endpoints are compared by their expression: the two
+// requests are built separately and never share objects.
+func EndpointsToUnmanage(
+	previous []*HAProxyEndpointData,
+	current []*HAProxyEndpointData,
+) []*HAProxyEndpointData {
+	stillRegistered := map[string]struct{}{}
+	for _, endpoint := range current {
+		stillRegistered[endpoint.Endpoint] = struct{}{}
+	}
+	toUnmanage := []*HAProxyEndpointData{}
+	for _, endpoint := range previous {
+		if _, found := stillRegistered[endpoint.Endpoint]; !found {
+			toUnmanage = append(toUnmanage, endpoint)
+		}
+	}
+	return toUnmanage
+}
+
+// notNeededAnymore drops the endpoints that the request registered last registers (again):
+// a clean-up scheduled by an earlier reload must not remove what a later reload needs.
+func notNeededAnymore(endpoints []*HAProxyEndpointData) []*HAProxyEndpointData {
+	lastManagedMutex.Lock()
+	defer lastManagedMutex.Unlock()
+	if lastManaged == nil {
+		return endpoints
+	}
+	return EndpointsToUnmanage(endpoints, lastManaged.ManagedEndpoints)
+}
+
+// isAllManagedNow tells whether the request registered last manages all traffic
+func isAllManagedNow() bool {
+	lastManagedMutex.Lock()
+	defer lastManagedMutex.Unlock()
+	return lastManaged != nil && lastManaged.ManageAll
 }
 
 func unmanageHAProxyEndpoints(unmanagedEndpoints []*HAProxyEndpointData) error {
